@@ -52,6 +52,52 @@ def mk_engine(fb, inline_depth=6, no_inline=None, **kw):
     return psi.Engine(fb, inline_depth=inline_depth, summaries=SUMMARIES, inline_filter=flt, **kw)
 
 
+def _op_locals(o):
+    if isinstance(o, dict):
+        if o.get('k') in ('copy', 'move') and 'p' in o:
+            yield o['p']['l']
+        elif 'p' in o and isinstance(o['p'], dict) and 'l' in o['p']:
+            yield o['p']['l']
+        for k, v in o.items():
+            if k != 'p' and isinstance(v, (dict, list)):
+                for x in _op_locals(v):
+                    yield x
+    elif isinstance(o, list):
+        for e in o:
+            for x in _op_locals(e):
+                yield x
+
+
+def local_flow(body, sources):
+    """flow-insensitive forward taint over the locals of one MIR body: a local is reached when it is assigned from / returned
+    by a call on / mutated through a `&mut` by a call on a reached local.  Returns the set of reached locals."""
+    borrows = {}        # ref local -> borrowed local
+    for b in body.blocks:
+        for st in b['stmts']:
+            if st['k'] == 'assign' and st['r'].get('k') in ('ref', 'rawptr') and not st['p']['proj']:
+                borrows[st['p']['l']] = st['r']['p']['l']
+    reached = set(sources)
+    changed = True
+    while changed:
+        changed = False
+        for b in body.blocks:
+            for st in b['stmts']:
+                if st['k'] != 'assign':
+                    continue
+                if any(l in reached for l in _op_locals(st['r'])) and st['p']['l'] not in reached:
+                    reached.add(st['p']['l'])
+                    changed = True
+            t = b['term']
+            if t['k'] == 'call':
+                ls = [l for a in t['args'] for l in _op_locals(a)]
+                if any(l in reached for l in ls):
+                    new = {t['dest']['l']} | {borrows[l] for l in ls if l in borrows}
+                    if not new <= reached:
+                        reached |= new
+                        changed = True
+    return reached
+
+
 def run_unrolled(fb, body, unroll=8, **kw):
     """paths of `body` with loops unrolled up to `unroll` times (a loop over a small constant table is then fully explored);
     when that explodes (an unbounded retry loop somewhere below), fall back to cutting every loop at its back edge.
